@@ -504,6 +504,12 @@ impl<'a> Gen<'a> {
 pub struct HistRun {
     pub out: RunOut,
     pub steps: Vec<Step>,
+    /// the inputs actually handed to the instance, timers resolved
+    pub history: Vec<Input>,
+}
+
+pub fn run_hist_history(hp: &HP, seed: u64) -> Vec<Input> {
+    run_hist(hp, seed, None).history
 }
 
 /// Resolve a step to an input (None = nothing to do in the current state).
@@ -600,7 +606,7 @@ pub fn run_hist(hp: &HP, seed: u64, steps: Option<&[Step]>) -> HistRun {
     out.stats.add("events", d.history.len() as u64);
     out.violations = d.violations;
     out.sim_ns = now.min(1u64 << 50);
-    HistRun { out, steps: done }
+    HistRun { out, steps: done, history: d.history }
 }
 
 /// Has this run exercised what `focus` is about?
@@ -616,6 +622,7 @@ pub fn nontrivial_for(focus: &str, out: &RunOut) -> bool {
         "C15" => g("c15_nonempty_sections") > 0,
         "C16" => g("c16_items_sent") + g("c16_items_received") > 0,
         "C19" => g("datagrams_checked") > 0,
+        "C17" => g("calls") > 0,
         "C20" => g("calls") > 5,
         _ => true,
     }
